@@ -50,9 +50,17 @@ pub fn run(tier: Tier) -> Report {
         "operands of // are numbers or numeric strings (tables with __idiv are outside the property's quantifier)".to_owned(),
     ];
     let rule_jsons: Vec<String> = LOWERING_RULES.iter().map(|s| s.to_string()).collect();
+    // every construct in every syntactic position, and nested in the holes of every other construct (shared with C07)
+    let mut all_seeds = seeds(tier);
+    for code in super::c07::position_programs() {
+        all_seeds.push(Seed { code, family: "construct positions" });
+    }
+    for code in super::c07::nested_position_programs() {
+        all_seeds.push(Seed { code, family: "nested constructs" });
+    }
     let spec = Spec {
         property: "C06",
-        seeds: seeds(tier),
+        seeds: all_seeds,
         bind_default_config: Some(format!("[{}]", rule_jsons.join(","))),
         rule_jsons,
         max_depth: tier.pick(9, 18),
